@@ -1,4 +1,4 @@
-import Tibc.Lemmas.Log
+import Tibc.Lemmas.AckOnce
 /-
   C03 — Acknowledgements are authentic, written once and processed at most once.
   PROPERTY THEOREMS ONLY.
@@ -59,5 +59,174 @@ theorem recorded_ack_is_app_ack (s : State) (p : Packet) (π : Proof) (h : Nat) 
   unfold msgRecvPacket
   rw [hr]
   simp [hd, hrt, ha]
+
+/-! ### processed at most once, over all histories -/
+
+/-- one operation keeps the per-chain invariant -/
+theorem step_ackInv (w : World) (op : Op) (hsc : op.selfClient = false) (hi : ∀ q, AckInv q (w q)) (q : Chain) :
+    AckInv q ((step H Hc w op).1 q) := by
+  by_cases hq : q = op.chain
+  · subst hq
+    have hlog := step_log H Hc w op op.chain
+    have hI := hi op.chain
+    cases op with
+    | tx c m =>
+      refine ackInv_of_delta H hI ?_ hlog
+      simp only [step, Op.chain, setChain_same]; exact deliver_prims H Hc (w c) m
+    | ksend c p =>
+      refine ackInv_of_delta H hI ?_ hlog
+      simp only [step, Op.chain, setChain_same]; exact Prims.single H (Prim.send _ _)
+    | createClient c q' h t pd =>
+      simp only [Op.chain] at hI ⊢
+      simp only [step, setChain_same]
+      refine ackInv_of_frame hI rfl rfl rfl ?_
+      have hne : q' ≠ c := by simpa [Op.selfClient] using hsc
+      have hn := hI.noSelf
+      have hnm : (w c).core.name = c := hI.name
+      unfold NoSelf at hn ⊢
+      simp only [hnm, upd_apply] at hn ⊢
+      simp [hne.symm, hn]
+    | update c q' h t =>
+      simp only [Op.chain] at hI ⊢
+      simp only [step]
+      split
+      · exact hI
+      · rename_i cl hcl
+        simp only [setChain_same]
+        refine ackInv_of_frame hI rfl rfl rfl ?_
+        have hn := hI.noSelf
+        have hnm : (w c).core.name = c := hI.name
+        unfold NoSelf at hn ⊢
+        simp only [hnm, upd_apply] at hn ⊢
+        have hne : ¬ c = q' := by intro h; rw [← h, hn] at hcl; cases hcl
+        simp [hne, hn]
+    | setRules c rules =>
+      simp only [Op.chain] at hI ⊢
+      simp only [step]
+      split
+      · exact hI
+      · simp only [setChain_same]
+        exact ackInv_of_frame hI rfl rfl rfl hI.noSelf
+    | setTime c now =>
+      simp only [Op.chain] at hI ⊢
+      simp only [step, setChain_same]
+      exact ackInv_of_frame hI rfl rfl rfl hI.noSelf
+    | createClientMsg c auth q' ct h t pd v cs =>
+      simp only [Op.chain] at hI ⊢
+      simp only [step, setChain_same]
+      have ha := createClientMsg_admin (w c) auth q' ct h t pd v cs (w q').core.ps.snapshot
+      refine ackInv_of_frame hI ha.name ha.ps ha.cbLog ?_
+      have hne : q' ≠ c := by simpa [Op.selfClient] using hsc
+      have hn := hI.noSelf
+      have hnm : (w c).core.name = c := hI.name
+      unfold NoSelf at hn ⊢
+      rw [ha.name, hnm]; rw [hnm] at hn
+      unfold createClientMsg; repeat' split
+      all_goals first | exact hn | (simp only [setClient, upd_apply]; simp [hne.symm, hn])
+    | upgradeClientMsg c auth q' ct h t pd v cs =>
+      simp only [Op.chain] at hI ⊢
+      simp only [step, setChain_same]
+      have ha := upgradeClientMsg_admin (w c) auth q' ct h t pd v cs (w q').core.ps.snapshot
+      refine ackInv_of_frame hI ha.name ha.ps ha.cbLog ?_
+      have hn := hI.noSelf
+      have hnm : (w c).core.name = c := hI.name
+      unfold NoSelf at hn ⊢
+      rw [ha.name, hnm]; rw [hnm] at hn
+      by_cases hqc : q' = c
+      · -- no client of `c` exists, so there is nothing to upgrade
+        subst hqc
+        unfold upgradeClientMsg; simp only [hn]; repeat' split
+        all_goals exact hn
+      · unfold upgradeClientMsg; repeat' split
+        all_goals first | exact hn | (simp only [setClient, upd_apply]; simp [Ne.symm hqc, hn])
+    | registerRelayerMsg c auth q' rs =>
+      simp only [Op.chain] at hI ⊢
+      simp only [step, setChain_same]
+      have ha := registerRelayerMsg_admin (w c) auth q' rs
+      refine ackInv_of_frame hI ha.name ha.ps ha.cbLog ?_
+      have hn := hI.noSelf
+      unfold NoSelf at hn ⊢
+      rw [ha.name]
+      unfold registerRelayerMsg; repeat' split
+      all_goals exact hn
+    | setRulesMsg c auth rules =>
+      simp only [Op.chain] at hI ⊢
+      simp only [step, setChain_same]
+      have ha := setRulesMsg_admin (w c) auth rules
+      refine ackInv_of_frame hI ha.name ha.ps ha.cbLog ?_
+      have hn := hI.noSelf
+      unfold NoSelf at hn ⊢
+      rw [ha.name]
+      unfold setRulesMsg; repeat' split
+      all_goals exact hn
+    | updateClientMsg c sg q' h t ok =>
+      simp only [Op.chain] at hI ⊢
+      simp only [step, setChain_same]
+      have ha := updateClientMsg_admin (w c) sg q' h t ok (w q').core.ps.snapshot
+      refine ackInv_of_frame hI ha.name ha.ps ha.cbLog ?_
+      have hn := hI.noSelf
+      have hnm : (w c).core.name = c := hI.name
+      unfold NoSelf at hn ⊢
+      rw [ha.name, hnm]; rw [hnm] at hn
+      by_cases hqc : q' = c
+      · subst hqc
+        unfold updateClientMsg; simp only [hn]; repeat' split
+        all_goals exact hn
+      · unfold updateClientMsg; repeat' split
+        all_goals first | exact hn | (simp only [setClient, upd_apply]; simp [Ne.symm hqc, hn])
+    | nftIssue c a cls mr =>
+      refine ackInv_of_delta H hI ?_ hlog
+      simp only [step, Op.chain, setChain_same, nftIssueMsg_core]; exact Prims.refl _
+    | nftMint c a cls id u rc =>
+      refine ackInv_of_delta H hI ?_ hlog
+      simp only [step, Op.chain, setChain_same, nftMintMsg_core]; exact Prims.refl _
+    | nftSend c a cls id rc =>
+      refine ackInv_of_delta H hI ?_ hlog
+      simp only [step, Op.chain, setChain_same, nftSendMsg_core]; exact Prims.refl _
+    | nftBurn c a cls id =>
+      refine ackInv_of_delta H hI ?_ hlog
+      simp only [step, Op.chain, setChain_same, nftBurnMsg_core]; exact Prims.refl _
+    | mtIssue c a cls =>
+      refine ackInv_of_delta H hI ?_ hlog
+      simp only [step, Op.chain, setChain_same, mtIssueMsg_core]; exact Prims.refl _
+    | mtMint c a cls id f amt rc =>
+      refine ackInv_of_delta H hI ?_ hlog
+      simp only [step, Op.chain, setChain_same, mtMintMsg_core]; exact Prims.refl _
+    | mtSend c a cls id amt rc =>
+      refine ackInv_of_delta H hI ?_ hlog
+      simp only [step, Op.chain, setChain_same, mtSendMsg_core]; exact Prims.refl _
+    | mtBurn c a cls id amt =>
+      refine ackInv_of_delta H hI ?_ hlog
+      simp only [step, Op.chain, setChain_same, mtBurnMsg_core]; exact Prims.refl _
+  · rw [step_other H Hc w op q hq]; exact hi q
+
+/-- **Processed at most once.** For every history of operations on any number of chains in which
+    no chain is given a light client of itself, on every chain the source application's
+    acknowledgement callback (refund or completion) has run at most once per
+    `(source, destination, sequence)` — whatever is replayed, in whatever order — and only for
+    packets this chain sent. -/
+theorem ack_processed_at_most_once (ops : List Op) (hns : ∀ op ∈ ops, op.selfClient = false) (c : Chain) (k : PKey) :
+    ackCalls ((run H Hc World.init ops) c) k ≤ 1 ∧ (k.src ≠ c → ackCalls ((run H Hc World.init ops) c) k = 0) := by
+  suffices h : ∀ (w : World), (∀ q, AckInv q (w q)) → (∀ op ∈ ops, op.selfClient = false) → ∀ q, AckInv q ((run H Hc w ops) q) by
+    have hinit : ∀ q, AckInv q (World.init q) := by
+      intro q
+      refine ⟨rfl, rfl, fun k _ => ?_, fun k _ => rfl⟩
+      unfold pot potCore ackCalls
+      simp only [World.init, State.init, Core.init, PStore.empty, List.filter_nil, List.length_nil, Option.isSome_none,
+        Bool.false_eq_true, if_false]
+      by_cases h1 : k.seq ≥ 1 <;> simp [h1]
+    have hfin := h World.init hinit hns c
+    refine ⟨?_, hfin.other k⟩
+    by_cases hk : k.src = c
+    · have := hfin.own k hk; unfold pot at this; omega
+    · rw [hfin.other k hk]; omega
+  induction ops with
+  | nil => intro w hw _; exact hw
+  | cons op ops ih =>
+    intro w hw hall
+    simp only [run, List.foldl_cons]
+    exact ih (fun op' hop' => hns op' (List.mem_cons_of_mem _ hop')) _
+      (fun q => step_ackInv H Hc w op (hall op (by simp)) hw q)
+      (fun op' hop' => hall op' (List.mem_cons_of_mem _ hop'))
 
 end Tibc.C03
